@@ -173,6 +173,8 @@ def main(chk):
         if ti == 5:
             tm.force_empty_sections |= {9, 11}
         bases.append(('tiny%d' % ti, tm.encode(), None))
+    from vlib import hostile as _hostile
+    bases.append(('deep-br-140', _hostile.deep_br(140).encode(), None))
     nvar = 9 if quick else 20
     root = env.subdir('c08')
 
@@ -187,9 +189,21 @@ def main(chk):
         stats['opts_' + ('_'.join(opts) or 'none')] += 1
         tb, base_files = translate_files(w2c2, b, os.path.join(d, 'base'), 'm', opts)
         if tb.rc != 0:
-            # the base itself is rejected: C10's business unless the module is outside the supported feature set
+            # the base itself is rejected: C10's business unless the module is outside the supported feature set - but if an EQUIVALENT
+            # encoding of the same module is accepted, the rejection depends on the encoding, which is this property's business
+            out_res = []
+            try:
+                for kind, vb in variants(r0, b, 4):
+                    if vb != b and kind.startswith('pad') and e2e.validate_v8(vb, d, 'rb')[0]:
+                        tv, _ = translate_files(w2c2, vb, os.path.join(d, 'rbv'), 'm', opts)
+                        if tv.rc == 0:
+                            out_res.append(('C08:reject:minimal-encoding', '%s (options %s): the module as given is rejected (rc %s: %s) but its %s re-encoding is accepted' % (
+                                tag, ' '.join(opts), tb.rc, tb.err[-160:], kind), {'base.wasm': b, 'variant.wasm': vb, 'kind.txt': kind, 'stderr.txt': tb.err[-2000:]}, vb))
+                            break
+            except Exception:
+                pass
             shutil.rmtree(d, ignore_errors=True)
-            return tag, b, [], stats, [('base-rejected', tb.err[-200:])]
+            return tag, b, out_res, stats, [('base-rejected', tb.err[-200:])]
         base_defs = definitions(base_files)
         try:
             vs = variants(r0, b, nvar)
